@@ -148,6 +148,46 @@ def oracle(tier, seed):
             continue
         if got != v:
             V(f"value-changed: {t!r} -> {c!r}")
+    # expressions outside the supported grammar: rejected with an error, or - if accepted - translated with the right value; never
+    # silently replaced (the translator object is shared by all KROME reactions, so a supported rate is translated first)
+    for t, v in [("exp(-user_a*invT)", FUNCS["exp"](-(VARS["user_a"] * VARS["invT"]))), ("-Tgas + 2.0d0", -VARS["Tgas"] + 2),
+                 ("Tgas**(-0.5d0)", FUNCS["pow"](VARS["Tgas"], Fraction(-1, 2))), ("2.0d0*(-T32)", 2 * (-VARS["T32"]))]:
+        cases += 1
+        try:
+            netx = translate(["Tgas*2.0d0 + 1.5d0", t])
+            first = netx.reaction_list[0].rateexpr()
+            c = netx.reaction_list[1].rateexpr()
+        except Exception:
+            continue          # refused at generation time: allowed
+        try:
+            got = evalc(c)
+        except Exception as e:
+            viol.append({"property": "C12", "expression": t, "what": f"invalid-C-output: {t!r} -> {c!r}: {type(e).__name__}: {e}", "signature": "C12:outside-grammar:invalid-C-output"})
+            continue
+        if got != v:
+            viol.append({"property": "C12", "expression": t, "what": f"silently-altered: {t!r} is outside the supported grammar and was neither rejected nor translated: output {c!r}"
+                         + (" (the previous reaction's rate)" if c == first else ""), "signature": "C12:outside-grammar:silently-altered"})
+    # the emitted statement, not only the expression: long rates survive the line wrapping of the templates (no token is cut)
+    longs = [("user_a/exp(Tgas/T32)/sqrt(invT/Te)/(n(idx_H)/nH)/exp(T32/Tgas)/sqrt(Te/invT)/(nH/user_a)/exp(invT/T32)", None),
+             ("1.5d0*exp(Tgas/T32)*sqrt(invT/Te)*(n(idx_H)/nH)/exp(T32/Tgas)/sqrt(Te/invT)/(nH/user_a)/(Tgas/1.d3)**(0.2d0)/exp(invT)", None)]
+    try:
+        from .native_ode import render, statements, strip_comments
+        netl = translate([t for t, _ in longs])
+        texts = [r.rateexpr() for r in netl.reaction_list]
+        files = render(netl, "cvode", "dense", "cpu", jac_pattern=False)
+        st = {int(i): rhs for i, rhs in statements(strip_comments(files["src/naunet_rates.cpp"]), r"\bk\[(\d+)\]")}
+        for k, text in enumerate(texts):
+            cases += 1
+            want = evalc(text)
+            try:
+                got = evalc(" ".join(st[k].split()))
+            except Exception as e:
+                viol.append({"property": "C12", "expression": longs[k][0], "what": f"emitted-statement-invalid: k[{k}] = {st.get(k, '')[:120]!r}...: {type(e).__name__}: {e}", "signature": "C12:emitted-statement:invalid"})
+                continue
+            if got != want:
+                viol.append({"property": "C12", "expression": longs[k][0], "what": f"emitted-statement-differs: k[{k}] in naunet_rates.cpp evaluates to {got}, the translated expression to {want}", "signature": "C12:emitted-statement:value"})
+    except Exception as e:
+        viol.append({"property": "C12", "expression": "long rates", "what": f"emitted-statement-check-raises: {type(e).__name__}: {e}", "signature": "C12:emitted-statement:raises"})
     # abundance references must resolve to the species' own macro
     for sp, ref in [("H", "n(idx_H)"), ("H2", "n(idx_H2)"), ("Hj", "n(idx_Hj)"), ("E", "n(idx_E)")]:
         cases += 1
